@@ -135,5 +135,5 @@ def all_paths(states, pred):
 
 def show_facts(S, limit=12):
     from .dbg import showfact
-    xs = sorted(showfact(f) for f in S)
+    xs = sorted(showfact(f) for f in S if not str(f[0]).startswith('~'))
     return '; '.join(xs[:limit]) + (' ...' if len(xs) > limit else '')
